@@ -63,6 +63,13 @@ pub fn closed_shapes(thorough: bool, tl: (i32, i32)) -> Vec<Value> {
             v.push(json!({"k":"ellipse","tl":[x, y],"size":[w, h]}));
         }
     }
+    // very thin ellipses have rows / columns without any point (empty scanlines); placed at `tl` and so that their
+    // first column / row is 0 or -1 (an "empty" scanline is the range 0..0: the origin is a special place)
+    for (w, h) in [(2u32, 20u32), (4, 40), (2, 9), (3, 30), (20, 2), (40, 4)] {
+        for (ex, ey) in [(x, y), (0, 3), (-1, -20), (3, 0), (-20, -1)] {
+            v.push(json!({"k":"ellipse","tl":[ex, ey],"size":[w, h]}));
+        }
+    }
     let rr: Vec<u32> = if thorough { vec![1, 2, 3, 4, 5, 7, 10, 14] } else { vec![1, 2, 4, 5, 7] };
     let radii: Vec<[(u32, u32); 4]> = vec![
         [(0, 0); 4],
